@@ -652,12 +652,22 @@ def run_program(src: str):
         code = compile(src, "<prog>", "exec")
     except SyntaxError as e:
         return ("", "SyntaxError")
+    import signal
+
+    def on_alarm(signum, frame):
+        raise TimeoutError("program runs too long")
+
+    old = signal.signal(signal.SIGALRM, on_alarm)
+    signal.setitimer(signal.ITIMER_REAL, 3.0)
     try:
         with contextlib.redirect_stdout(out), contextlib.redirect_stderr(io.StringIO()):
             exec(code, {"__name__": "__main__"})
         return (out.getvalue(), None)
     except BaseException as e:  # noqa
         return (out.getvalue(), type(e).__name__)
+    finally:
+        signal.setitimer(signal.ITIMER_REAL, 0)
+        signal.signal(signal.SIGALRM, old)
 
 
 def _unmangle(name: str, cls) -> str:
@@ -773,8 +783,10 @@ def oracle_selftest():
             raise RuntimeError(f"binding-structure oracle self-test failed: {before!r} / {after!r}: {d!r}")
 
 
-def oracle(mods, rule: str, src: str, structure: bool):
-    """run one renaming rule on a closed program; None or a failure description"""
+def oracle(mods, rule: str, src: str, structure: bool, execute: bool = True):
+    """run one renaming rule on a closed program; None or a failure description
+    (execute=False: generated modules are not closed programs and may not terminate; only the binding
+    structure is compared)"""
     fixes = mods["fixes"]
     mods["core"].parse.cache_clear()
     try:
@@ -793,9 +805,10 @@ def oracle(mods, rule: str, src: str, structure: bool):
         return dict(problem=f"{rule} raised {type(e).__name__}: {e}", output=None)
     if new == src:
         return None
-    a, b = run_program(src), run_program(new)
-    if a != b:
-        return dict(problem=f"behaviour differs: {a!r} -> {b!r}", output=new)
+    if execute:
+        a, b = run_program(src), run_program(new)
+        if a != b:
+            return dict(problem=f"behaviour differs: {a!r} -> {b!r}", output=new)
     if structure:
         d = binding_structure_diff(src, new)
         if d:
@@ -1158,7 +1171,7 @@ def check(run: common.Run):
     for p, (kind, payload) in zip(files, meta):
         rc, out = results[p]
         if kind == "naming-block":
-            lists = re.findall(r"=\s*(\[[^\]]*\]|nil)\s*:\s*list nat", out)
+            lists = re.findall(r"=\s*(\[[^\]]*\]|nil)\s*:\s*list N", out)
             if rc != 0 or len(lists) != len(TAGS):
                 disagreements.append(("eval-failed", p.name, out[-1500:]))
                 continue
@@ -1241,7 +1254,7 @@ def check(run: common.Run):
                 if f:
                     found.append({"kind": "property-oracle", "site": "style." + d[1]["function"], **f})
             elif d[0] in ("align", "uses") and "source" in d[1]:
-                f = oracle(mods, "align", d[1]["source"], structure=True)
+                f = oracle(mods, "align", d[1]["source"], structure=True, execute=False)
                 if f:
                     found.append({"kind": "property-oracle", "site": "fixes.align_variable_names_with_convention",
                                   "source": d[1]["source"], **f})
